@@ -677,7 +677,7 @@ def run(idx, rep, tier):
     # classification / negation / port rules are C17.R1-R2
     from .c17 import (r1 as c17r1, r2 as c17r2, wildcard_witnesses,
                       port_fallback, build_pattern_witnesses,
-                      no_empty_host_name)
+                      no_empty_host_name, hashed_empty_addr)
     rep.rule('C04.R5', 'known_hosts pattern and classification rules '
              '(= C17.R1, C17.R2, wildcard witnesses of C17.R5): a negated '
              'element excludes the line, markers select the right trust '
@@ -689,6 +689,7 @@ def run(idx, rep, tier):
     port_fallback(k, 'C04.R5')
     build_pattern_witnesses(k, 'C04.R5')
     no_empty_host_name(k, 'C04.R5')
+    hashed_empty_addr(k, 'C04.R5')
     for o in rep.obligations[before:]:
         o.rule = 'C04.R5'
     from .c18 import canonicalize_rules
@@ -697,3 +698,10 @@ def run(idx, rep, tier):
              'a configured domain, or a CNAME that a '
              'CanonicalizePermittedCNAMEs rule permits for it')
     canonicalize_rules(k, 'C04.R10')
+    # C04.R11: shared rule
+    from .c16 import r2 as _c16r2
+    rep.rule('C04.R11', 'a host certificate is trusted only after its CA signature was verified over its exact contents (= C16.R2): no return of SSHOpenSSHCertificate.construct without signing_key.verify(data, signature) on the path - not skipped for signatures "seen before"')
+    _before = len(rep.obligations)
+    _c16r2(k)
+    for o in rep.obligations[_before:]:
+        o.rule = 'C04.R11'
